@@ -57,6 +57,8 @@ impl<'a> ReMatcher<'a> {
     }
 
     pub(crate) fn match_at(&self, i: usize, anchored: bool) -> bool {
+        #[cfg(regexml_verif)]
+        crate::verif::tick(18);
         // initialize start pointer, paren cache and paren count
         self.set_paren_count(1);
         self.state.borrow_mut().anchored_match = anchored;
@@ -99,6 +101,8 @@ impl<'a> ReMatcher<'a> {
             // make sure it works correctly. But can be cleaned up.
             let mut nl: isize = i.try_into().unwrap();
             loop {
+                #[cfg(regexml_verif)]
+                crate::verif::tick(19);
                 nl = self
                     .search
                     .iter()
@@ -187,6 +191,8 @@ impl<'a> ReMatcher<'a> {
 
     fn check_preconditions(&self, start: usize) -> bool {
         for precondition in &self.program.preconditions {
+            #[cfg(regexml_verif)]
+            crate::verif::tick(20);
             if let Some(fixed_position) = precondition.fixed_position {
                 let match_ = precondition
                     .operation
@@ -202,6 +208,8 @@ impl<'a> ReMatcher<'a> {
                 }
                 let mut found = false;
                 for j in i..self.search.len() {
+                    #[cfg(regexml_verif)]
+                    crate::verif::tick(21);
                     if (precondition.fixed_position.is_none()
                         || precondition.fixed_position == Some(j))
                         && precondition
@@ -235,6 +243,8 @@ impl<'a> ReMatcher<'a> {
 
         // try a match at each position
         while pos < len && self.matches(pos) {
+            #[cfg(regexml_verif)]
+            crate::verif::tick(22);
             // append chars from input string before match
             // TODO: what happens if this returns None as there is no paren start?
             if let Some(start) = self.get_paren_start(0) {
@@ -251,6 +261,8 @@ impl<'a> ReMatcher<'a> {
                 simple_replacement = true;
                 let mut i = 0;
                 while i < replacement.len() {
+                    #[cfg(regexml_verif)]
+                    crate::verif::tick(23);
                     let ch = replacement[i];
                     match ch {
                         '\\' => {
@@ -301,6 +313,8 @@ impl<'a> ReMatcher<'a> {
                                 }
                             } else {
                                 loop {
+                                    #[cfg(regexml_verif)]
+                                    crate::verif::tick(24);
                                     i += 1;
                                     if i >= replacement.len() {
                                         break;
